@@ -69,6 +69,15 @@ type parentCell struct {
 
 var parentCells [][]parentCell
 
+// newMulti builds a task's own multi-format UPC/EAN reader, from no hints or
+// from the application-wide hints map (whose format list the constructor reads).
+func newMulti(r *prng) gozxing.Reader {
+	if r.intn(2) == 0 {
+		return oned.NewMultiFormatUPCEANReader(sharedHints)
+	}
+	return oned.NewMultiFormatUPCEANReader(nil)
+}
+
 // sharedHints is the application-wide, read-only hints map of the 1-D operations.
 var sharedHints map[gozxing.DecodeHintType]interface{}
 
@@ -77,6 +86,8 @@ func buildParents() {
 		gozxing.DecodeHintType_TRY_HARDER:                 true,
 		gozxing.DecodeHintType_NEED_RESULT_POINT_CALLBACK: gozxing.ResultPointCallback(func(gozxing.ResultPoint) {}),
 		gozxing.DecodeHintType_ALLOWED_EAN_EXTENSIONS:     []int{0, 2, 5},
+		// formats of other families first, a duplicate last: what a configuration file yields
+		gozxing.DecodeHintType_POSSIBLE_FORMATS: []gozxing.BarcodeFormat{gozxing.BarcodeFormat_QR_CODE, gozxing.BarcodeFormat_CODE_128, gozxing.BarcodeFormat_EAN_13, gozxing.BarcodeFormat_UPC_A, gozxing.BarcodeFormat_EAN_8, gozxing.BarcodeFormat_UPC_E, gozxing.BarcodeFormat_EAN_13},
 	}
 	for i := 0; i < 2; i++ {
 		canvas, _ := gozxing.NewBitMatrix(640, 430)
@@ -410,7 +421,7 @@ func runOp(in *instances, op OpSpec) (d string) {
 		out := digestMatrix(m, nil) + " | " + digestResult(res, err)
 		if op.K == "ean13" || op.K == "upca" || op.K == "ean8" || op.K == "upce" {
 			if in.multi == nil {
-				in.multi = oned.NewMultiFormatUPCEANReader(nil)
+				in.multi = newMulti(r)
 			}
 			res, err = in.multi.Decode(bmp, dh)
 			out += " | " + digestResult(res, err)
@@ -546,7 +557,7 @@ func runOp(in *instances, op OpSpec) (d string) {
 			rd = in.dmr
 		case "ean13":
 			if in.multi == nil {
-				in.multi = oned.NewMultiFormatUPCEANReader(nil)
+				in.multi = newMulti(r)
 			}
 			rd = in.multi
 		default:
@@ -690,7 +701,7 @@ func runOp(in *instances, op OpSpec) (d string) {
 		res, err := rd.Decode(bmp, nil)
 		out := digestResult(res, err)
 		if in.multi == nil {
-			in.multi = oned.NewMultiFormatUPCEANReader(nil)
+			in.multi = newMulti(r)
 		}
 		res, err = in.multi.Decode(bmp, nil)
 		return out + " | " + digestResult(res, err)
